@@ -29,6 +29,18 @@ checks = {
           "Bounded model checking (k=4/8): the combinators are shown to be pointwise and stateless — any dependence on an earlier child value, swapped or cached operand yields a different term and a solver witness. Readiness iff both children ready.", "DESIGN.md §4 C14"),
  "C17": C(SYM + "twin / extra-last() / clone-and-diverge scripts over every view and seeded chains; obligations by term identity, all comparison paths; N=2 quick / {2,3} thorough",
           "Bounded model checking: because the real code runs on terms, any hidden shared, global or lazily-filled state shows as differing terms between twin, clone and original; seed varies the last() pattern and clone position.", "DESIGN.md §4 C17"),
+ "C01": C(SYM + "chain B(A(leaf)) vs stand-alone A feeding stand-alone B, and combinators vs their children, composed through Box<dyn View<Sym>>; obligations by term identity (=> bit-identical in every float format), recording leaf for delivery; seeded sample (quick) / all 32x34 pairs at N=2 (thorough)",
+          "Bounded model checking of compositions: every wrapper is the crate's real code monomorphised over a boxed inner view; on every explored comparison path the chain's output term is identical to the decomposition's, every leaf has received exactly the raw inputs in order, and a combinator reports iff both children do.", "DESIGN.md §4 C01"),
+ "C03": C(SYM + "two-history product: private symbolic prefixes of different lengths + shared suffix of length K; outputs must be equal for all (unbounded) prefix values; N in {1,2} quick / {1..4} thorough",
+          "Bounded model checking of finite memory: the prefix values are unconstrained solver variables ('arbitrarily large'), all comparison outcomes of both instances are explored, exceptions (MyRSI flat window, Roc zero base) are assumptions on the shared suffix only.", "DESIGN.md §4 C03"),
+ "C09": C(SYM + "two-run product with symbolic bounded prefixes and a common symbolic tail of m=8N steps: one fixed gain bound and a 2^-6 fading bound as linear obligations over the input box (exact linear normal forms; for long recursions a rigorously rounded relaxation); TrendFlex/ReFlex/LaguerreRSI via term destructuring, along sampled comparison paths",
+          "Bounded model checking of stability: for every input stream within the horizon s+8N (inputs are solver variables in [-1,1]) the output stays below one N-independent bound and the influence of the prefix has decayed below 2^-6. A pole at or outside the unit circle cannot satisfy the fading obligation. 'Unbounded length' is outside: the claim is the horizon.", "DESIGN.md §4 C09"),
+ "C11": C(SYM + "equivalence against batch re-evaluations of the cited papers' difference equations (written independently, same libm for coefficients); exact equality, or 1e-5 tolerance where the crate truncates 1.414*pi to 4.4422; sqrt/ln outputs via term destructuring / axioms",
+          "Bounded model checking: for all real inputs within the stated (N, k) every reported value of the nine Ehlers-style views equals the reference recursion re-evaluated from the complete history, on every comparison path. A changed coefficient, lag, sign or initial condition gives a different rational function and a solver witness.", "DESIGN.md §4 C11"),
+ "C15": C(SYM + "panic-freedom: every view at N in {1,2,3} (all comparison paths, fully symbolic inputs) and N in {8,64} (constant / increasing / alternating / free streams along sampled comparison paths), seeded chains, seeded last() interleavings; run in the dev profile (debug assertions + overflow checks) and again in the release profile",
+          "Bounded model checking of panic-freedom: integer state (indices, counters, deque lengths) runs concretely on every explored path of the real code, so index, underflow, unwrap and the crate's own finiteness assertions fire for real; a panic on a feasible path is replayed natively before it is reported. f64-specific panics (rounding residue) are outside the real-arithmetic engine.", "DESIGN.md §4 C15"),
+ "C18": C(SYM + "counting global allocator (engine allocations masked) + symbolic exploration: live bytes owned by the view at every step in (L,4L] must not exceed the peak over the first L steps; streams = free symbolic prefix + constant/alternating/increasing symbolic tail; N in {1,2,3,8} quick / up to 32 thorough",
+          "Bounded model checking: buffer histories depend on comparisons (ties, zeros, flat stretches), which are solver-decided branches; on every explored path the measured heap owned by the view stops growing once the window has filled. The claim is the horizon 4L, not 'millions of values'.", "DESIGN.md §4 C18"),
 }
 not_applicable = {
  "C16": "bound on accumulated IEEE-754 rounding error over 1e4..1e6-step streams: needs floating-point proofs; every installed back end (CBMC/Kani f64, z3/cvc5 QF_FP, rounding-aware reals in NRA) was probed on the smallest instance (Sma N=2, 5 values) and does not finish beyond toy float widths — see DESIGN.md §8",
